@@ -7,15 +7,18 @@
    documented runtime error or to the excluded case, within the fuel the API supplies (C06_vm_total);
    LoadProg of any truncated dump is an error, never a panic (C13); Bind never panics (C15).  The parser's fuel
    is never exhausted on an accepted input (C06_parser_fuel = T2_accept_no_oof) and a compiled program never
-   ends in an internal error or at a panic site (C06_compiled_runs_clean, from T1 and T2).  Validated by
-   the differential run only: fuel on REJECTED inputs (the model reports `oof`, never observed), and that
-   every compiled program passes the verifier (it is checked on every
+   ends in an internal error or at a panic site (C06_compiled_runs_clean, from T1 and T2).  The parser terminates within its fuel and reaches no panic
+   site on EVERY input, accepted or rejected (C06_parser_total, C06_parse_total: measure = remaining tokens; the
+   two panic sites of parse.go -- an infix token without handler, an empty locals table in defVar -- are
+   unreachable).  Every compiled program passes the verifier (C06_parsed_verifies); also checked on the real
+   compiler's output (it is checked on every
    program the real compiler produces).  Partial: Go stack exhaustion and allocator failure are outside
    the model; the property excludes them. *)
 From BCL Require Import Model.Api Model.Verify Proofs.LineCalcProofs Proofs.LexerProofs Proofs.ParserInvProofs Proofs.OptionsProofs Proofs.VerifyProofs.
 Open Scope N_scope.
 From BCL Require Import Model.Compile Spec.Syntax Spec.AstSem Proofs.T2Expr Proofs.T2Proofs Proofs.T1Expr Proofs.T1Proofs Proofs.Language.
 From BCL Require Import Proofs.CompileVerifies.
+From BCL Require Import Proofs.ParserTotal.
 
 Theorem C06_lexer_total : forall cs, exists tk,
   last_opt (fst (lex cs)) = Some tk /\ (ttyp tk = tEOF \/ ttyp tk = tFAIL).
@@ -79,6 +82,24 @@ Theorem C06_parsed_verifies : forall name src,
   verify (pr_prog pr) = true.
 Proof. first [exact CompileVerifies.parsed_verifies | apply CompileVerifies.parsed_verifies]. Qed.
 Print Assumptions C06_parsed_verifies.
+
+(* every token list the lexer can produce: the parser neither runs out of fuel nor reaches a panic site *)
+Theorem C06_parser_total : forall ts, lex_shape ts ->
+  oof (parse_tokens ts) = false /\ ppanic (parse_tokens ts) = false.
+Proof. first [exact ParserTotal.parser_total | apply ParserTotal.parser_total]. Qed.
+Print Assumptions C06_parser_total.
+
+(* the same for Parse / ParseFile on every chunked source *)
+Theorem C06_parse_total : forall name cs,
+  pr_oof (parse_chunks name cs) = false /\ pr_panic (parse_chunks name cs) = false.
+Proof. first [exact ParserTotal.parse_total | apply ParserTotal.parse_total]. Qed.
+Print Assumptions C06_parse_total.
+
+Theorem C06_interpret_total : forall name src d t s,
+  snd (interpret name src d t s) <> IModelFail (bs "parser out of fuel") /\
+  snd (interpret name src d t s) <> IModelFail (bs "parser panic site").
+Proof. first [exact ParserTotal.interpret_parser_total | apply ParserTotal.interpret_parser_total]. Qed.
+Print Assumptions C06_interpret_total.
 
 (* the literals and limits that used to panic are errors in the model (and, by the differential run, in the code) *)
 Example C06_example :
